@@ -64,26 +64,80 @@ class Purity:
                         return True
         return False
 
+    def _methods_named(self, name: str) -> List[FuncDef]:
+        idx = self.__dict__.get('_by_method_name')
+        if idx is None:
+            idx = {}
+            for mn in self.ix.all_module_names():
+                t = self.ix.text(mn)
+                if 'def ' not in t:
+                    continue
+                # only modules that are parsed anyway would be cheap; the index is built once per process
+                for k in self.ix.module(mn).all_classes:
+                    for m_name, m_ in k.methods.items():
+                        idx.setdefault(m_name, []).append(m_)
+            self.__dict__['_by_method_name'] = idx
+        return idx.get(name, [])
+
+    def _changes_own_object(self, m: FuncDef) -> bool:
+        if not m.self_name or m in self._self_in_progress:
+            return False
+        self._self_in_progress.add(m)
+        try:
+            return any(root == m.self_name and path for root, path in self._mutations(m))
+        finally:
+            self._self_in_progress.discard(m)
+
     # --- what a function body mutates, as (root name, attr path) pairs
+    def _call_returns_receiver_state(self, f: FuncDef):
+        """predicate on calls in f: the callee is a method every return of which is (an element of) an attribute of
+        its receiver - `table.lookup(name)` gives an object that *is* part of the table"""
+        def pred(call: ast.Call) -> bool:
+            try:
+                d = self.ix.callee(f.module, f, call)
+            except Exception:
+                d = None
+            if not isinstance(d, FuncDef) or not d.self_name:
+                return False
+            rets = [n.value for n in walk_own(d.node) if isinstance(n, ast.Return) and n.value is not None]
+            if not rets:
+                return False
+            for r in rets:
+                while isinstance(r, ast.Subscript) or (isinstance(r, ast.Call) and isinstance(r.func, ast.Attribute)
+                                                      and r.func.attr == 'get'):
+                    r = r.value if isinstance(r, ast.Subscript) else r.func.value
+                rn = _root_name(r)
+                if not (rn and rn[0] == d.self_name and rn[1]):
+                    return False
+            return True
+        return pred
+
     @staticmethod
-    def _aliases(f: FuncDef) -> Dict[str, Tuple[str, Tuple[str, ...]]]:
+    def _aliases(f: FuncDef, returns_state=None) -> Dict[str, Tuple[str, Tuple[str, ...]]]:
         """local names bound once to (part of) the state of another name: `c = self._cache`, `c = self._cache[k]`,
         `c = self.__dict__.setdefault(..)` / `.get(..)` - changing the alias changes what it is taken from"""
         out = {}
         params = {p.arg for p in f.params}
         for name, bs in f.local_bindings().items():
-            if name in params or len(bs) != 1 or bs[0][0] != 'assign' or bs[0][1] is None:
+            plain = [b for b in bs if b[0] != 'augassign']
+            if name in params or len(plain) != 1 or plain[0][0] != 'assign' or plain[0][1] is None:
                 continue
-            v = bs[0][1]
+            v = plain[0][1]
+            part = False
             while True:
                 if isinstance(v, ast.Subscript):
+                    part = True
                     v = v.value
                 elif isinstance(v, ast.Call) and isinstance(v.func, ast.Attribute) and v.func.attr in ('setdefault', 'get'):
+                    v = v.func.value
+                elif isinstance(v, ast.Call) and isinstance(v.func, ast.Attribute) and returns_state is not None \
+                        and returns_state(v):
+                    part = True
                     v = v.func.value
                 else:
                     break
             r = _root_name(v)
-            if r and r[1] and r[0] != name:
+            if r and (r[1] or part) and r[0] != name:
                 out[name] = r
         return out
 
@@ -92,7 +146,7 @@ class Purity:
         alone (lazy initialisation) and is not reported"""
         if ignore_paramless and f.self_name and len(f.params) == 1:
             return set()
-        aliases = self._aliases(f)
+        aliases = self._aliases(f, self._call_returns_receiver_state(f))
         found = self._mutations_(f, ignore_paramless)
         out = set()
         for root, path in found:
@@ -104,6 +158,8 @@ class Purity:
 
     def _mutations_(self, f: FuncDef, ignore_paramless: bool) -> Set[Tuple[str, Tuple[str, ...]]]:
         out = set()
+        rebinds = set()
+        self.__dict__.setdefault('_rebinds', {})[f] = rebinds
         for n in walk_own(f.node):
             if isinstance(n, (ast.Assign, ast.AugAssign, ast.AnnAssign)) and self._is_value_keyed_memo(f, n):
                 continue
@@ -124,8 +180,13 @@ class Purity:
                     r = _root_name(t.value)
                     if r:
                         out.add((r[0], r[1] + (t.attr,)))
+                        rebinds.add((r[0], r[1] + (t.attr,)))
                 elif isinstance(t, ast.Name) and isinstance(n, ast.AugAssign):
-                    pass
+                    # `alias += [..]` extends the aliased list in place (for a number or a string it only rebinds
+                    # the local name: judged only when the right-hand side shows that the object is a list)
+                    if isinstance(n.op, ast.Add) and isinstance(n.value, (ast.List, ast.ListComp)) \
+                            or (isinstance(n.value, ast.Call) and isinstance(n.value.func, ast.Name) and n.value.func.id == 'list'):
+                        out.add((t.id, ()))
             if isinstance(n, ast.Call):
                 if isinstance(n.func, ast.Attribute) and n.func.attr in MUTATORS:
                     r = _root_name(n.func.value)
@@ -137,6 +198,14 @@ class Purity:
                     callee = self.ix.callee(f.module, f, n)
                 except Exception:
                     callee = None
+                if callee is None and isinstance(n.func, ast.Attribute) and n.func.attr not in MUTATORS:
+                    # receiver of unknown class: when every method of that name in the repository changes its own
+                    # object, the receiver is changed
+                    cands = self._methods_named(n.func.attr)
+                    if cands and len(cands) <= 3 and all(self._changes_own_object(m_) for m_ in cands):
+                        r = _root_name(n.func.value)
+                        if r:
+                            out.add(r)
                 fd = callee
                 is_ctor = False
                 if isinstance(callee, ClassDef):
@@ -169,6 +238,33 @@ class Purity:
                                     out.add(r)
         return out
 
+    def _mutations_in_place(self, m: FuncDef):
+        """mutations of m that change an object in place - not `x.a = value`, which only makes x.a name another
+        object (the object that was stored there before is left as it was)"""
+        out = set()
+        for n in walk_own(m.node):
+            if isinstance(n, ast.Call) and isinstance(n.func, ast.Attribute) and n.func.attr in MUTATORS:
+                r = _root_name(n.func.value)
+                if r:
+                    out.add(r)
+            targets = []
+            if isinstance(n, ast.Assign):
+                targets = n.targets
+            elif isinstance(n, (ast.AugAssign, ast.AnnAssign)):
+                targets = [n.target]
+            elif isinstance(n, ast.Delete):
+                targets = n.targets
+            for t in targets:
+                if isinstance(t, ast.Subscript):
+                    r = _root_name(t.value)
+                    if r:
+                        out.add(r)
+                elif isinstance(t, ast.Attribute):
+                    r = _root_name(t.value)
+                    if r and r[1]:
+                        out.add(r)   # x.a.b = v changes the object x.a
+        return out
+
     def attrs_mutated_by_methods(self, k: ClassDef) -> Set[str]:
         if k in self._attr_mut:
             return self._attr_mut[k]
@@ -177,7 +273,7 @@ class Purity:
         for name, m in k.methods.items():
             if name == '__init__' or not m.self_name:
                 continue
-            for root, path in self._mutations(m):
+            for root, path in self._mutations_in_place(m):
                 if root == m.self_name and path:
                     res.add(path[0])
         self._attr_mut[k] = res
